@@ -198,13 +198,31 @@ def _s11(day):
     return zd, day, ["db", "create"]
 
 
+def _s12(day):
+    """`db reindex PAGE` (an explicit path) of a page that needs a ZID write-back AND a modify-date
+    write-back, while another changed page is not named: killed anywhere, the same command run again
+    must finish the named page (the other page stays as it is until a plain reindex)."""
+    files = {
+        "a.zo": "# A\n\n- 240101#A1 first note of a w0\no P1 240101#A2 todo of a\n",
+        "b.zo": "# B\n\n- 240102#B1 note of b w0\n",
+    }
+    zd = Z.make_zdir(files, "c13b")
+    r = Z.db_create(zd, day)
+    if not Z.cli_ok(r):
+        raise H.HarnessError("S12 setup failed " + r.err[-300:])
+    (zd / "a.zo").write_text(files["a.zo"].replace("first note of a w0", "first note of a w1") + "- brand new on a\n")
+    day2 = day + dt.timedelta(days=1)
+    return zd, day2, ["db", "reindex", "{zdir}/a.zo"]  # {zdir}: the directory the command runs on (a copy of this one)
+
+
 SCENARIOS = {"S1-create-new-notes": _s1, "S2-reindex-stamp-new-note-new-page": _s2,
              "S3-reindex-shared-tag": _s3, "S4-create-f-whitelist": _s4,
              "S5-reindex-without-write-back": _s5, "S6-reindex-page-with-properties-and-single-use-tags": _s6,
              "S7-reindex-renamed-page-and-moved-note": _s7, "S8-reindex-repaired-whitelisted-page": _s8,
              "S9-reindex-more-new-notes-on-a-day-that-already-has-zids": _s9,
              "S10-reindex-repaired-whitelisted-page-without-write-back": _s10,
-             "S11-create-over-an-existing-index-with-more-new-notes": _s11}
+             "S11-create-over-an-existing-index-with-more-new-notes": _s11,
+             "S12-reindex-one-explicit-page-that-needs-both-write-backs": _s12}
 
 
 # ---------------------------------------------------------------------------
@@ -212,7 +230,7 @@ def _instrumented(zdir_s: str, argv_tail, crash_at, torn, crash_after=None):
     rec = IP.Recorder(crash_at=crash_at, torn=tuple(torn) if torn else None, root=zdir_s, crash_after=crash_after)
     IP.install(rec)
     cfg = Path(zdir_s).parent / "org.cfg.yml"
-    code = H._cli_entry(["zorg", "-c", str(cfg), "--dir", zdir_s, *argv_tail])
+    code = H._cli_entry(["zorg", "-c", str(cfg), "--dir", zdir_s, *[a.replace("{zdir}", zdir_s) for a in argv_tail]])
     return {"exit": code, "effects": rec.effects}
 
 
@@ -480,7 +498,7 @@ def run(ctx: F.Ctx):
         _SC.clear()
     meta = {
         "rule": (
-            "11 scenarios (db create with three ZID-less notes on two pages; db create over an existing index (the old database file is deleted first) with more ZID-less notes of the same day; db reindex a day later "
+            "12 scenarios (db create with three ZID-less notes on two pages; db reindex of ONE explicit page that needs a ZID and a modify-date write-back; db create over an existing index (the old database file is deleted first) with more ZID-less notes of the same day; db reindex a day later "
             "with an edited note, a new note, a new page, a new page in a sub-directory and an untouched page; db reindex with two "
             "changed pages sharing a tag whose other holder dropped it; db create -f with a broken "
             "page; db reindex after changes that need no write-back: a new page whose notes carry "
